@@ -130,7 +130,10 @@ def gen_cases(out, explore):
         shapes = [(1, [(2, [])]), (1, [(3, [])]), (1, [(2, []), (3, [])]), (2, [(1, [(3, [])])])][:1 if k % 2 == 0 else 4]
         ntr = rnd.choice([1003, 1100])
         traces = [(j + 1, 1, shuffle_tree(rnd, rnd.choice(shapes))) for j in range(ntr)]
-        cases.append(dict(traces=traces, bs=1000, order="seq", buf=0, oseed=k, large=True))
+        # shapes with a single representative: the 1000th trace (last slot of a page of 1000) and the very last trace
+        traces[999] = (1000, 1, (1, [(4, [])]))
+        traces[-1] = (ntr, 1, (1, [(5, []), (2, [])]))
+        cases.append(dict(traces=traces, bs=[1000, 2000][(k + out.seed) % 2], order="seq", buf=0, oseed=k, large=True))
     return cases, n_exh, n_rand
 
 
